@@ -1308,6 +1308,17 @@ func (s *tstate) doCall(call *ssa.Call) {
 	}
 	// memory clobbering
 	s.clobberByCall(call, f)
+	// a sibling method of the caller's own receiver type that is neither in the set nor trusted is analysed
+	// like a member of the set (extracting statements into a helper method must not leave the analysed set)
+	if f != nil && !an.T[f] && !an.isTrustedCallee(f) && f.Blocks != nil && l.inModule(f) && call.Parent() != nil {
+		rc, rf := call.Parent().Signature.Recv(), f.Signature.Recv()
+		if rc != nil && rf != nil {
+			nc, nf := derefNamed(rc.Type()), derefNamed(rf.Type())
+			if nc != nil && nf != nil && nc.Obj() == nf.Obj() {
+				an.T[f] = true
+			}
+		}
+	}
 	if f != nil && an.T[f] {
 		sm := an.summaryOf(f)
 		an.curFn = call.Parent()
